@@ -91,7 +91,8 @@ def gen_codec(rng: random.Random, i: int) -> dict[str, Any]:
     if c < 0.55:
         x: Any = g_text(rng, 0, 14)
     elif c < 0.75:
-        x = g_text(rng, 0, 12, list("ab <>&'\"+%/=?#é测 ") + ["&amp;", "&lt;", "&gt;", "&#39;", "&quot;", "\n", "\r\n", "\r"])
+        x = g_text(rng, 0, 12, list("ab <>&'\"+%/=?#é测 ") + ["&amp;", "&lt;", "&gt;", "&#39;", "&quot;", "\n", "\r\n", "\r",
+                                                        "&amp;lt;", "&amp;amp;", "&amp;#39;"])
     elif c < 0.9:
         x = g_text(rng, 0, 40, list("abcdefghij>?~\xff\xfe é测😀"))
     else:
@@ -169,6 +170,19 @@ def case_codec(R: Runner, inp: dict[str, Any]) -> None:
         R.law("escape_once", "idempotent", eo.value == eo2.value, q, {"once": eo.value, "twice": eo2.value})
     if e.ok and ee.ok:
         R.law("escape_once", "never-double-escapes", e.value == ee.value, q, {"escape": e.value, "then_once": ee.value})
+    # the same two laws on rendered output with auto-escape on (a documented Environment option)
+    o1 = R.eng.render("{{ x | escape_once }}", {"x": x}, auto=True)
+    o2 = R.eng.render("{{ x | escape_once | escape_once }}", {"x": x}, auto=True)
+    o3 = R.eng.render("{{ x | escape | escape_once }}", {"x": x}, auto=True)
+    o4 = R.eng.render("{{ x | escape }}", {"x": x}, auto=True)
+    for o in (o1, o2, o3, o4):
+        R.law("escape_once", "no-foreign-exception", o.kind != "foreign", o.exc + ":auto-escape", o.brief())
+    if o1.ok and o2.ok:
+        R.law("escape_once", "idempotent", o1.value == o2.value, "auto-escape",
+              {"input": s, "once": o1.value, "twice": o2.value})
+    if o3.ok and o4.ok:
+        R.law("escape_once", "never-double-escapes", o3.value == o4.value, "auto-escape",
+              {"input": s, "escape": o4.value, "then_once": o3.value})
     # newlines
     R.expect("newline_to_br", "lf-and-crlf-become-br", R.both("newline_to_br", x),
              re.sub(r"\r?\n", "<br />\n", s), q)
